@@ -41,11 +41,10 @@ CLAIMED = {
         design_ref="DESIGN.md §7 C13"),
     "C17": dict(
         text="Proof (Lean 4) over a table-shaped model of sf_command (guards as written, byte ranges read/written through data, return value, handle step): "
-             "cmd_in_bounds_partial (every range inside [0,datasize), NULL never dereferenced, return defined, for all ids/handles/sizes/memory contents outside three "
-             "decidable known-finding classes), string_cmds_terminate, queries_are_pure_partial; the full statements are refuted with concrete witnesses "
-             "(strlen after snprintf of size 0; length field read before the size check; psf_strlcpy_crlf reading src[1] past the end; SFC_CALC_* moving the read cursor in RDWR mode). "
-             "Tied to the code by the complete grid: every SFC_* id of sndfile.h + undefined ids x datasize 0..sizeof+8, 4096, INT_MAX x {NULL, exact poisoned-tail block} "
-             "x {NULL, r, w, rw} x 7 formats under ASan, fresh handle per point, state digest before/after.",
+             "cmd_in_bounds (every range inside [0,datasize), NULL never dereferenced, return defined — for all ids, handles, sizes and memory contents, no excluded class), "
+             "string_cmds_terminate, queries_are_pure, all at full strength since the four repairs ff9108b, dc376ca, 8501a42, 604e547; the rules before the repairs are kept as "
+             "*_old_rule theorems. Tied to the code by the complete grid: every SFC_* id of sndfile.h + undefined ids x datasize 0..sizeof+8, 4096, INT_MAX x {NULL, exact poisoned-tail block} "
+             "x {NULL, r, w, rw} x 7 formats under ASan, fresh handle per point, state digest before/after; the repaired defects are regression points run first on every run.",
         technique="Lean 4 theorems over a hand-written model + exhaustive grid correspondence under ASan",
         design_ref="DESIGN.md §7 C17"),
 }
